@@ -142,3 +142,47 @@ Proof.
   exists vs'. split; [exact H1|]. split; [exact H2|]. split; [exact H3|].
   unfold encode_rlp. rewrite H4. reflexivity.
 Qed.
+
+(* ---------- decode into a reused target: the result is a function of the bytes only ---------- *)
+Lemma decode_step_target_irrelevant t1 t2 bs : snd (decode_step t1 bs) = snd (decode_step t2 bs).
+Proof.
+  unfold decode_step. destruct (decode_rlp_array bs) as [arr| |]; try reflexivity.
+  destruct (build arr); reflexivity.
+Qed.
+
+Theorem decode_run_history_independent bss : forall t, decode_run t bss = map decode_fresh bss.
+Proof.
+  induction bss as [|bs r IH]; intros t; [reflexivity|]. cbn [decode_run map].
+  destruct (decode_step t bs) as [t' o] eqn:E. rewrite IH. f_equal.
+  unfold decode_fresh. rewrite <- (decode_step_target_irrelevant t empty_validators bs), E. reflexivity.
+Qed.
+
+Lemma decode_step_ok_target t bs v : snd (decode_step t bs) = DOk v -> fst (decode_step t bs) = v.
+Proof.
+  unfold decode_step. destruct (decode_rlp_array bs) as [arr| |]; try discriminate.
+  destruct (build arr); [|discriminate]. cbn. intros H. inversion H. reflexivity.
+Qed.
+
+(* whatever the target held: decoding the encoding of a built set makes the target that set *)
+Theorem decode_into_any_target ops vs t : weights_fit ops -> Forall (fun p => fst p < two64) ops ->
+  build ops = Some vs ->
+  exists vs', decode_step t (encode_rlp vs) = (vs', DOk vs') /\ v_cache vs' = v_cache vs /\
+              Permutation (v_values vs') (v_values vs) /\ encode_rlp vs' = encode_rlp vs.
+Proof.
+  intros Hf Hid Hb. destruct (roundtrip_bytes ops vs Hf Hid Hb) as [_ [vs' [H1 [H2 [H3 H4]]]]].
+  exists vs'. split; [|split; [exact H2|split; [exact H3|exact H4]]].
+  unfold decode_rlp in H1. unfold decode_step.
+  destruct (decode_rlp_array (encode_rlp vs)) as [arr| |]; try discriminate.
+  unfold decode in H1. rewrite H1. reflexivity.
+Qed.
+
+(* the in-place variant is not history independent: the second decode yields the union *)
+Example decode_inplace_not_history_independent :
+  let b1 := rlp_array [(1, 50); (2, 40)] in
+  let b2 := rlp_array [(2, 7); (3, 9)] in
+  let t1 := fst (decode_step_inplace empty_validators b1) in
+  match snd (decode_step_inplace t1 b2), snd (decode_step t1 b2) with
+  | DOk u, DOk v => sorted_ids u = [1; 3; 2] /\ sorted_ids v = [3; 2]
+  | _, _ => False
+  end.
+Proof. vm_compute. split; reflexivity. Qed.
